@@ -4,6 +4,7 @@
    {"ev":"lc.commit","thread":t,"code":c,"version":v}     hook, under the reload mutex
    {"ev":"lc.snapshot","thread":t,"version":v}            hook, under the reload mutex
    {"ev":"ret","thread":t,"op":..,"code":c,"applied":b,"version":v,"content":name}
+   {"ev":"edit","from":name,"to":name}   the caller edited a candidate object it had applied, in place
    {"ev":"obs"|"end","content":name,"version":v,"routes":r}   quiescent observation:
         ConfigSnapshot() mapped back to a pool name, and the proxy's routing table *)
 EXTENDS LiveConfigHist, TraceLib
@@ -19,6 +20,8 @@ TRet == IsEv("ret") /\ IF Rec.op = "snap" THEN RetSnap(Rec.thread, Rec.content, 
                        ELSE RetApply(Rec.thread, Rec.code, Rec.applied, Rec.version)
 TObs == (IsEv("obs") \/ IsEv("end")) /\ Observe(Rec.content, Rec.version, Rec.routes)
 
-TNext == TReset \/ TCall \/ TCommit \/ TSnap \/ TRet \/ TObs
+TEdit == IsEv("edit") /\ CallerEdit
+
+TNext == TReset \/ TCall \/ TCommit \/ TSnap \/ TRet \/ TObs \/ TEdit
 TSpec == TInit /\ [][TNext]_tvars
 =============================================================================
